@@ -150,6 +150,11 @@ def generate(rng: random.Random, tier: str) -> dict:
         if r < 0.40:
             k = rng.randint(1, len(base_labels))
             labs = rng.sample(base_labels, k=k)
+            expr_labels = [p["label"] for p in declared if p["expr"] is not None]
+            if expr_labels and rng.random() < 0.2:
+                # a table-driven update (history row, stale columns) also carries a slot for an expression parameter;
+                # whatever stands there must be overwritten by the expression
+                labs.insert(rng.randrange(len(labs) + 1), rng.choice(expr_labels))
             ops.append({"op": "UPDATE", "labels": labs, "values": [round(rng.uniform(-2.0, 3.0), 5) for _ in labs]})
         elif r < 0.50:
             ops.append({"op": "EXPORT", "exclude_non_vary": rng.random() < 0.5})
